@@ -126,11 +126,31 @@ func c47CheckIndexes(id string, set IndexedSet[*c47Elem], m *c47Model) {
 //
 //	op 0 Put(e)  1 Remove(e)  2 RemoveMany(keyer A, e.a)  3 RemoveMany(keyer B, e.b)  4 Clear()
 func VerifC47IndexedSetHistory() {
-	n := nd.IntRange("n", 0, nd.Bound(3, 4))
+	c47SetHistory(0, nd.IntRange("n", 0, nd.Bound(3, 4)))
+}
+
+// The same from a populated set: 3 (thorough 3..4) elements are put first, then
+// one arbitrary operation follows. Key fields are CONCRETE selectors here
+// (a in {0,1}, b in {0,1,2}: every way three or four elements share or do not
+// share keys, including three distinct elements under one key and duplicates),
+// so each path runs without the solver.
+func VerifC47IndexedSetPopulated() {
+	pre := nd.IntRange("pre", 3, nd.Bound(3, 4))
+	c47SetHistoryKeys(pre, 1, true)
+}
+
+func c47SetHistory(pre, n int) { c47SetHistoryKeys(pre, n, false) }
+
+// c47SetHistory: pre Puts followed by n operations chosen by selector, then
+// every observer is compared with the model.
+func c47SetHistoryKeys(pre, n int, concrete bool) {
 	set := NewIndexedSet(c47Eq, c47Keyers)
 	m := &c47Model{}
-	for i := 0; i < n; i++ {
-		op := nd.Pick(c47Name("op", i), 5)
+	for i := 0; i < pre+n; i++ {
+		op := 0
+		if i >= pre {
+			op = nd.Pick(c47Name("op", i), 5)
+		}
 		if op == 4 {
 			set.Clear()
 			for s := range m.alive {
@@ -138,7 +158,12 @@ func VerifC47IndexedSetHistory() {
 			}
 			continue
 		}
-		e := &c47Elem{a: c47Key(c47Name("a", i)), b: c47Key(c47Name("b", i)), tag: len(m.slot)}
+		var e *c47Elem
+		if concrete {
+			e = &c47Elem{a: byte(nd.Pick(c47Name("a", i), 2)), b: byte(nd.Pick(c47Name("b", i), 3)), tag: len(m.slot)}
+		} else {
+			e = &c47Elem{a: c47Key(c47Name("a", i)), b: c47Key(c47Name("b", i)), tag: len(m.slot)}
+		}
 		switch op {
 		case 0:
 			set.Put(e)
